@@ -607,14 +607,90 @@ func asyncChain(ctx *core.Ctx, ci int, router string, adapter bool) {
 	wg.Wait()
 }
 
+// libraryFilters: the library's own filters (CORS with a restricted origin list, the OPTIONS filter) sit between application
+// filters, content encoding is on, and the container is also reached as the plain handler of an outer container that encodes
+// as well (its writer is then already a compressing one). Whatever the Origin and Accept-Encoding of a request, every
+// application filter and the route function run exactly once, in order.
+func libraryFilters(ctx *core.Ctx, ci int, router string) {
+	stOf := func(r *http.Request) *asyncState { return r.Context().Value(asyncKey{}).(*asyncState) }
+	rec := func(n string) restful.FilterFunction {
+		return func(req *restful.Request, resp *restful.Response, chain *restful.FilterChain) {
+			stOf(req.Request).log(n)
+			chain.ProcessFilter(req, resp)
+		}
+	}
+	inner := restful.NewContainer()
+	if router == "jsr311" {
+		inner.Router(restful.RouterJSR311{})
+	}
+	inner.EnableContentEncoding(true)
+	cors := restful.CrossOriginResourceSharing{AllowedDomains: []string{"http://allowed.example"}, CookiesAllowed: true, Container: inner}
+	inner.Filter(rec("A"))
+	inner.Filter(cors.Filter)
+	inner.Filter(inner.OPTIONSFilter)
+	inner.Filter(rec("B"))
+	ws := new(restful.WebService).Path("/lib").Filter(rec("S"))
+	ws.Route(ws.GET("/x").Filter(rec("R")).To(func(req *restful.Request, resp *restful.Response) {
+		stOf(req.Request).log("H")
+		resp.Write([]byte("library filters in between"))
+	}))
+	inner.Add(ws)
+	outer := restful.NewContainer()
+	outer.EnableContentEncoding(true)
+	outer.Handle("/", inner)
+	for _, entry := range []string{"Dispatch", "ServeHTTP", "outer container"} {
+		for _, origin := range []string{"", "http://allowed.example", "http://evil.example", "null"} {
+			for _, ae := range []string{"", "gzip", "deflate"} {
+				st := &asyncState{}
+				req := rt.Req{Method: "GET", Path: "/lib/x", Hdr: map[string]string{}}
+				if origin != "" {
+					req.Hdr["Origin"] = origin
+				}
+				if ae != "" {
+					req.Hdr["Accept-Encoding"] = ae
+				}
+				hr := rt.HTTPRequest(&req, nil)
+				hr = hr.WithContext(context.WithValue(context.Background(), asyncKey{}, st))
+				w := rt.NewRec()
+				switch entry {
+				case "Dispatch":
+					inner.Dispatch(w, hr)
+				case "ServeHTTP":
+					inner.ServeHTTP(w, hr)
+				default:
+					outer.ServeHTTP(w, hr)
+				}
+				ctx.Eval(1)
+				ctx.Count("requests_through_library_filters", 1)
+				st.mu.Lock()
+				got := strings.Join(st.names, " ")
+				st.mu.Unlock()
+				if got != "A B S R H" || w.Code() != 200 {
+					cls := "order"
+					if strings.Count(got, "H") > 1 || strings.Count(got, "A") > 1 {
+						cls = "twice"
+					}
+					ctx.Violation(ci, "c06:"+cls+":library-filters:"+strings.ReplaceAll(entry, " ", "-"), fmt.Sprintf("GET /lib/x via %s, Origin %q, Accept-Encoding %q: application filters and route function ran as [%s] (status %d); each runs once, in the order A B S R H", entry, origin, ae, got, w.Code()),
+						map[string]interface{}{"router": router, "entry": entry, "origin": origin, "accept_encoding": ae, "ran": st.names, "status": w.Code()})
+					return
+				}
+			}
+		}
+	}
+	ctx.Sig("library-filters|" + router)
+}
+
 func c06(ctx *core.Ctx) {
 	quietLogs()
-	ctx.Rule("generated configurations: 0-5 container filters (now and then 9, 17, 33 or 65 at a level), two WebServices with 0-3 service filters, two routes and a pair of representation twins (same method and path, JSON vs XML) with 0-3 route filters each, now and then two routes built from one reused RouteBuilder (the second inherits the first one's filters), every filter named after its owner, behaviour per filter in {pass, set attribute, replace Request (all attributes copied, or some dropped and one overridden), replace Response, replace http.Request (derived or on a fresh context), HttpMiddlewareHandlerToFilter around a wrapping middleware, set ResponseWriter, write an error status through the Response and pass control on all the same}; any filter short-circuits on demand of the request; service / container filters registered before or after the routes / services; handlers that panic (recovery on: nothing in the chain may run a second time). 40-request sequences (routed, 404 and 405 routing failures with POST/HEAD/PUT/DELETE/PATCH, HandleWithFilter) run sequentially on one container and then from 16 (every 5th configuration: 70) goroutines (race detector on). Every fifth configuration also runs a fixed chain with a filter in the style of http.TimeoutHandler (hands the chain below, with a response of its own, to another goroutine, answers 504 and returns early): every element still runs once, in order. Offline checker per request: exact enter/pass/exit sequence = prefix of [container.., service.., route.., handler] with reversed exits, each once, hand-over identity of (Request, Response, http.Request, writer, attributes). Non-trivial = a request whose chain has >= 2 elements; distinct by (filter counts per level, short-circuit position, request kind, behaviours on the path).")
+	ctx.Rule("generated configurations: 0-5 container filters (now and then 9, 17, 33 or 65 at a level), two WebServices with 0-3 service filters, two routes and a pair of representation twins (same method and path, JSON vs XML) with 0-3 route filters each, now and then two routes built from one reused RouteBuilder (the second inherits the first one's filters), every filter named after its owner, behaviour per filter in {pass, set attribute, replace Request (all attributes copied, or some dropped and one overridden), replace Response, replace http.Request (derived or on a fresh context), HttpMiddlewareHandlerToFilter around a wrapping middleware, set ResponseWriter, write an error status through the Response and pass control on all the same}; any filter short-circuits on demand of the request; service / container filters registered before or after the routes / services; handlers that panic (recovery on: nothing in the chain may run a second time). 40-request sequences (routed, 404 and 405 routing failures with POST/HEAD/PUT/DELETE/PATCH, HandleWithFilter) run sequentially on one container and then from 16 (every 5th configuration: 70) goroutines (race detector on). Every fifth configuration also runs a fixed chain with the library's own CORS (restricted origins) and OPTIONS filters between application filters, content encoding on, reached through Dispatch, ServeHTTP and as the plain handler of an outer encoding container, for every Origin / Accept-Encoding combination. Every fifth configuration also runs a fixed chain with a filter in the style of http.TimeoutHandler (hands the chain below, with a response of its own, to another goroutine, answers 504 and returns early): every element still runs once, in order. Offline checker per request: exact enter/pass/exit sequence = prefix of [container.., service.., route.., handler] with reversed exits, each once, hand-over identity of (Request, Response, http.Request, writer, attributes). Non-trivial = a request whose chain has >= 2 elements; distinct by (filter counts per level, short-circuit position, request kind, behaviours on the path).")
 	ctx.Assume("a filter that replaces the Request copies the attributes it knows about (the API offers no enumeration)")
 	configs := ctx.N(250, 20000)
 	for ci := 0; ci < configs; ci++ {
 		if ctx.Skip(ci) {
 			continue
+		}
+		if ci%10 == 2 || ci%10 == 7 {
+			libraryFilters(ctx, ci, routerOf(ci))
 		}
 		if ci%10 == 4 || ci%10 == 9 {
 			asyncChain(ctx, ci, routerOf(ci), ci%20 >= 10)
